@@ -30,7 +30,7 @@ Fixpoint tlookup {A} (d : A) (t : list (string * A)) (s : string) : A :=
 Definition rfc_of (o : oracles) := tlookup None (o_rfc o).
 Definition lt_of (o : oracles) := tlookup LSyn (o_lt o).
 Definition lp_of (o : oracles) := tlookup LSyn (o_lp o).
-Definition decode_o (o : oracles) := decode (rfc_of o) (lt_of o).
+Definition decode_o (o : oracles) := decode (rfc_of o) (lt_of o) (lp_of o).
 Definition dec_field_o (o : oracles) := dec_field (rfc_of o) (lt_of o) (lp_of o).
 
 Definition res_opt {A} (r : res A) : option A := match r with Ok a => Some a | _ => None end.
@@ -149,7 +149,7 @@ Fixpoint actor_sim (a a' : actor) : bool :=
   | Actor x i s c, Actor x' i' s' c' =>
       (String.eqb i "" || String.eqb i i') && (String.eqb s "" || String.eqb s s') &&
       forallb (fun kv => string_in (fst kv) actor_names ||
-                         option_eqb json_eqb (lookup (fst kv) c') (Some (snd kv))) c &&
+                         option_eqb json_eqb (lookup (fst kv) c') (lookup (fst kv) c)) c &&
       match x with
       | None => true
       | Some p => match x' with Some q => actor_sim p q | None => false end
@@ -188,15 +188,10 @@ Definition any_actor_collision (vals : list fval) : bool :=
   existsb (fun v => match v with VActor (Some a) => actor_collision a | _ => false end) vals.
 
 (* values for which a lossless round trip is claimed: scope elements without
-   spaces, locale tags that the language package prints as it read them *)
+   spaces, locale tags that the language package prints as it read them
+   (C12_Codec.wf_field) *)
 Definition rt_guard (o : oracles) (sch : list field) (vals : list fval) : bool :=
-  vals_ok sch vals &&
-  forallb (fun v => match v with
-                    | VLocale (Some c) =>
-                        String.eqb c "und" ||
-                        match lt_of o c with LOk c' => String.eqb c c' | _ => false end
-                    | _ => true
-                    end) vals.
+  vals_wf (lt_of o) sch vals.
 
 Fixpoint fields_rt (ty : tyname) (sch : list field) (vals vals' : list fval) (d : obj) : bool :=
   match sch, vals, vals' with
@@ -226,7 +221,7 @@ Definition spec_round (ty : tyname) (vals : list fval) (claims : obj) (o : oracl
             fields_rt ty sch vals vals' d &&
             (* custom claims without a registered name survive *)
             forallb (fun kv => string_in (fst kv) (map fname sch) ||
-                               option_eqb json_eqb (lookup (fst kv) d) (Some (snd kv))) claims
+                               option_eqb json_eqb (lookup (fst kv) d) (lookup (fst kv) claims)) claims
         | None => unset_collision sch vals claims || any_actor_collision vals
         end
       else true
